@@ -3,7 +3,6 @@ import OpusProofs.SilkSymsTables
   C03 range lemmas for `silk_decode_indices` and the stereo predictor: whatever the range-decoder state,
   every decoded index lies inside the table the decoder later indexes with it.
 -/
-set_option profiler true
 namespace Opus.SilkSymsProofs
 open Opus Opus.RangeCoder Opus.SilkSyms Opus.Gen.SilkIcdf
 
@@ -186,127 +185,121 @@ theorem decodeLtp_scale (nbSubfr cc : Nat) (c : Dec) : (decodeLtp nbSubfr cc c).
   · exact sym_le_of _ _ zp_ltpScale
   · simp
 
-theorem decodePitchLtp_lag (rate : Rate) (nbSubfr cc prevSig : Nat) (prevLag : Int) (c : Dec) :
-    (0 ≤ (decodePitchLtp rate nbSubfr cc prevSig prevLag c).1.1 ∧
-      (decodePitchLtp rate nbSubfr cc prevSig prevLag c).1.1 < 32 * (rate.kHz / 2)) ∨
-    (cc = 2 ∧ prevSig = 2 ∧ prevLag - 8 ≤ (decodePitchLtp rate nbSubfr cc prevSig prevLag c).1.1 ∧
-      (decodePitchLtp rate nbSubfr cc prevSig prevLag c).1.1 ≤ prevLag + 11) := by
-  unfold decodePitchLtp
-  dsimp only
-  exact decodeLag_ok rate cc prevSig prevLag c
+theorem decodeInterp_le (nb : Nat) (c : Dec) : (decodeInterp nb c).1 ≤ 4 := by
+  unfold decodeInterp
+  split
+  · exact sym_le_of _ _ zp_interp
+  · simp
 
-theorem decodePitchLtp_contour (rate : Rate) (nbSubfr cc prevSig : Nat) (prevLag : Int) (c : Dec) :
-    (decodePitchLtp rate nbSubfr cc prevSig prevLag c).1.2.1 < (pitchContour rate nbSubfr).length := by
-  unfold decodePitchLtp
-  dsimp only
-  exact Nat.lt_of_le_of_lt (sym_le _ _) (zp_contour_lt rate nbSubfr)
+/-- Bounds on the voiced-frame block of `silk_decode_indices`. -/
+theorem decodePitchLtp_ok (rate : Rate) (nbSubfr cc prevSig : Nat) (prevLag : Int) (c : Dec)
+    (lag : Int) (contour per : Nat) (ltp : List Nat) (scale : Nat) (c' : Dec)
+    (h : decodePitchLtp rate nbSubfr cc prevSig prevLag c = ((lag, contour, per, ltp, scale), c')) :
+    ((0 ≤ lag ∧ lag < 32 * (rate.kHz / 2)) ∨ (cc = 2 ∧ prevSig = 2 ∧ prevLag - 8 ≤ lag ∧ lag ≤ prevLag + 11)) ∧
+    contour < (pitchContour rate nbSubfr).length ∧ per ≤ 2 ∧ ltp.length = nbSubfr ∧
+    (∀ l ∈ ltp, l < 8 * 2 ^ per) ∧ scale ≤ 2 := by
+  unfold decodePitchLtp at h
+  have h1 := decodeLag_ok rate cc prevSig prevLag c
+  generalize decodeLag rate cc prevSig prevLag c = x at h h1
+  split at h
+  rename_i _ lag0 c1
+  dsimp only at h1
+  have h2 := Nat.lt_of_le_of_lt (sym_le c1 (pitchContour rate nbSubfr)) (zp_contour_lt rate nbSubfr)
+  generalize sym c1 (pitchContour rate nbSubfr) = y at h h2
+  split at h
+  rename_i _ ct0 c2
+  dsimp only at h2
+  have h3 := decodeLtp_per nbSubfr cc c2
+  have h4 := decodeLtp_len nbSubfr cc c2
+  have h5 := decodeLtp_ltp nbSubfr cc c2
+  have h6 := decodeLtp_scale nbSubfr cc c2
+  generalize decodeLtp nbSubfr cc c2 = z at h h3 h4 h5 h6
+  split at h
+  rename_i _ per0 ltp0 scale0 c3
+  dsimp only at h3 h4 h5 h6
+  simp only [Prod.mk.injEq] at h
+  obtain ⟨⟨rfl, rfl, rfl, rfl, rfl⟩, rfl⟩ := h
+  exact ⟨h1, h2, h3, h4, h5, h6⟩
 
-theorem decodePitchLtp_per (rate : Rate) (nbSubfr cc prevSig : Nat) (prevLag : Int) (c : Dec) :
-    (decodePitchLtp rate nbSubfr cc prevSig prevLag c).1.2.2.1 ≤ 2 := by
-  unfold decodePitchLtp
-  dsimp only
-  exact decodeLtp_per _ _ _
-
-theorem decodePitchLtp_len (rate : Rate) (nbSubfr cc prevSig : Nat) (prevLag : Int) (c : Dec) :
-    (decodePitchLtp rate nbSubfr cc prevSig prevLag c).1.2.2.2.1.length = nbSubfr := by
-  unfold decodePitchLtp
-  dsimp only
-  exact decodeLtp_len _ _ _
-
-theorem decodePitchLtp_ltp (rate : Rate) (nbSubfr cc prevSig : Nat) (prevLag : Int) (c : Dec) :
-    ∀ l ∈ (decodePitchLtp rate nbSubfr cc prevSig prevLag c).1.2.2.2.1,
-      l < 8 * 2 ^ (decodePitchLtp rate nbSubfr cc prevSig prevLag c).1.2.2.1 := by
-  unfold decodePitchLtp
-  dsimp only
-  exact decodeLtp_ltp _ _ _
-
-theorem decodePitchLtp_scale (rate : Rate) (nbSubfr cc prevSig : Nat) (prevLag : Int) (c : Dec) :
-    (decodePitchLtp rate nbSubfr cc prevSig prevLag c).1.2.2.2.2 ≤ 2 := by
-  unfold decodePitchLtp
-  dsimp only
-  exact decodeLtp_scale _ _ _
+theorem decodeVoiced_ok (rate : Rate) (nbSubfr sig cc prevSig : Nat) (prevLag : Int) (c : Dec)
+    (lag : Int) (contour per : Nat) (ltp : List Nat) (scale : Nat) (c' : Dec)
+    (h : decodeVoiced rate nbSubfr sig cc prevSig prevLag c = ((lag, contour, per, ltp, scale), c')) :
+    (sig = 2 → ((0 ≤ lag ∧ lag < 32 * (rate.kHz / 2)) ∨
+                (cc = 2 ∧ prevSig = 2 ∧ prevLag - 8 ≤ lag ∧ lag ≤ prevLag + 11))) ∧
+    (sig = 2 → contour < (pitchContour rate nbSubfr).length) ∧ per ≤ 2 ∧ (sig = 2 → ltp.length = nbSubfr) ∧
+    (∀ l ∈ ltp, l < 8 * 2 ^ per) ∧ scale ≤ 2 := by
+  unfold decodeVoiced at h
+  by_cases hv : sig = 2
+  · rw [if_pos hv] at h
+    have := decodePitchLtp_ok rate nbSubfr cc prevSig prevLag c lag contour per ltp scale c' h
+    exact ⟨fun _ => this.1, fun _ => this.2.1, this.2.2.1, fun _ => this.2.2.2.1, this.2.2.2.2.1, this.2.2.2.2.2⟩
+  · rw [if_neg hv] at h
+    simp only [Prod.mk.injEq] at h
+    obtain ⟨⟨rfl, rfl, rfl, rfl, rfl⟩, rfl⟩ := h
+    exact ⟨fun h => absurd h hv, fun h => absurd h hv, by omega, fun h => absurd h hv, by simp, by omega⟩
 
 /-- `silk_decode_indices` never produces an index outside the table it later addresses. -/
 theorem decodeIndices_ok (rate : Rate) (nbSubfr : Nat) (hnb : 1 ≤ nbSubfr) (v : Bool) (cc prevSig : Nat)
-    (prevLag : Int) (c : Dec) :
-    IndicesOk rate nbSubfr cc prevSig prevLag (decodeIndices rate nbSubfr v cc prevSig prevLag c).1 := by
-  unfold decodeIndices
-  dsimp only
+    (prevLag : Int) (c : Dec) (ix : Indices) (c' : Dec)
+    (h : decodeIndices rate nbSubfr v cc prevSig prevLag c = (ix, c')) :
+    IndicesOk rate nbSubfr cc prevSig prevLag ix := by
+  unfold decodeIndices at h
   have ht := decodeType_le v c
-  generalize decodeType v c = t at ht ⊢
-  have hsig : t.1 / 2 ≤ 2 := by omega
-  have hg0 := decodeGain0_lt cc (t.1 / 2) hsig t.2
-  generalize decodeGain0 cc (t.1 / 2) t.2 = g0 at hg0 ⊢
-  have hgl := symLoop_length silk_delta_gain_iCDF (nbSubfr - 1) g0.2
-  have hgs := symLoop_le silk_delta_gain_iCDF (nbSubfr - 1) g0.2
-  generalize symLoop silk_delta_gain_iCDF (nbSubfr - 1) g0.2 = gs at hgl hgs ⊢
-  have hnl := decodeNlsf_ok rate (t.1 / 2) hsig gs.2
-  generalize decodeNlsf rate (t.1 / 2) gs.2 = nl at hnl ⊢
-  have hip : (if nbSubfr = 4 then sym nl.2 silk_NLSF_interpolation_factor_iCDF else (4, nl.2)).1 ≤ 4 := by
-    split
-    · exact sym_le_of _ _ zp_interp
-    · simp
-  generalize (if nbSubfr = 4 then sym nl.2 silk_NLSF_interpolation_factor_iCDF else (4, nl.2)) = ip at hip ⊢
+  generalize decodeType v c = x at h ht
+  obtain ⟨tix, c1⟩ := x
+  dsimp only at h ht
+  have hsig : tix / 2 ≤ 2 := by omega
+  have hg0 := decodeGain0_lt cc (tix / 2) hsig c1
+  generalize decodeGain0 cc (tix / 2) c1 = x at h hg0
+  obtain ⟨g0, c2⟩ := x
+  dsimp only at h hg0
+  have hgl := symLoop_length silk_delta_gain_iCDF (nbSubfr - 1) c2
+  have hgs := symLoop_le silk_delta_gain_iCDF (nbSubfr - 1) c2
+  generalize symLoop silk_delta_gain_iCDF (nbSubfr - 1) c2 = x at h hgl hgs
+  obtain ⟨gs, c3⟩ := x
+  dsimp only at h hgl hgs
+  have hnl := decodeNlsf_ok rate (tix / 2) hsig c3
+  generalize decodeNlsf rate (tix / 2) c3 = x at h hnl
+  obtain ⟨⟨n0, res⟩, c4⟩ := x
+  dsimp only at h hnl
+  have hip := decodeInterp_le nbSubfr c4
+  generalize decodeInterp nbSubfr c4 = x at h hip
+  obtain ⟨ip, c5⟩ := x
+  dsimp only at h hip
+  generalize hvx : decodeVoiced rate nbSubfr (tix / 2) cc prevSig prevLag c5 = x at h
+  obtain ⟨⟨lag, contour, per, ltp, scale⟩, c6⟩ := x
+  have hv := decodeVoiced_ok rate nbSubfr (tix / 2) cc prevSig prevLag c5 lag contour per ltp scale c6 hvx
+  dsimp only at h
+  have hsd := sym_le_of c6 _ zp_uniform4
+  generalize sym c6 silk_uniform4_iCDF = x at h hsd
+  obtain ⟨seed, c7⟩ := x
+  dsimp only at h hsd
+  simp only [Prod.mk.injEq] at h
+  obtain ⟨rfl, rfl⟩ := h
   have hgeo := cb_geometry rate
-  by_cases hv : t.1 / 2 = 2
-  · have hp1 := decodePitchLtp_lag rate nbSubfr cc prevSig prevLag ip.2
-    have hp2 := decodePitchLtp_contour rate nbSubfr cc prevSig prevLag ip.2
-    have hp3 := decodePitchLtp_per rate nbSubfr cc prevSig prevLag ip.2
-    have hp4 := decodePitchLtp_len rate nbSubfr cc prevSig prevLag ip.2
-    have hp5 := decodePitchLtp_ltp rate nbSubfr cc prevSig prevLag ip.2
-    have hp6 := decodePitchLtp_scale rate nbSubfr cc prevSig prevLag ip.2
-    simp only [hv, if_true]
-    generalize decodePitchLtp rate nbSubfr cc prevSig prevLag ip.2 = pl at hp1 hp2 hp3 hp4 hp5 hp6 ⊢
-    have hsd := sym_le_of pl.2 _ zp_uniform4
-    constructor <;> simp only
-    · omega
-    · omega
-    · simp only [List.length_cons]; omega
-    · intro g hg; simp only [List.head?_cons, Option.some.injEq] at hg; rw [← hg]; exact hg0
-    · intro g hg; simp only [List.tail_cons] at hg; have := hgs g hg; rw [zp_deltaGain] at this; omega
-    · rw [hgeo.1]; exact hnl.1
-    · intro j hj
-      rw [hgeo.2.2.1]
-      have : nl.1.1 * (nlsfCB rate).order / 2 = nl.1.1 * ((nlsfCB rate).order / 2) := by
-        rcases hgeo.2.1 with h | h <;> rw [h] <;> omega
-      rw [this]
-      have := Nat.mul_le_mul_right ((nlsfCB rate).order / 2) (Nat.le_of_lt_succ hnl.1)
-      omega
-    · exact hnl.2.1
-    · exact hnl.2.2
-    · exact hip
-    · intro _; exact hp1
-    · intro _; exact hp2
-    · exact hp3
-    · intro _; exact hp4
-    · exact hp5
-    · exact hp6
-    · exact hsd
-  · simp only [hv, if_false]
-    have hsd := sym_le_of ip.2 _ zp_uniform4
-    constructor <;> simp only
-    · omega
-    · omega
-    · simp only [List.length_cons]; omega
-    · intro g hg; simp only [List.head?_cons, Option.some.injEq] at hg; rw [← hg]; exact hg0
-    · intro g hg; simp only [List.tail_cons] at hg; have := hgs g hg; rw [zp_deltaGain] at this; omega
-    · rw [hgeo.1]; exact hnl.1
-    · intro j hj
-      rw [hgeo.2.2.1]
-      have : nl.1.1 * (nlsfCB rate).order / 2 = nl.1.1 * ((nlsfCB rate).order / 2) := by
-        rcases hgeo.2.1 with h | h <;> rw [h] <;> omega
-      rw [this]
-      have := Nat.mul_le_mul_right ((nlsfCB rate).order / 2) (Nat.le_of_lt_succ hnl.1)
-      omega
-    · exact hnl.2.1
-    · exact hnl.2.2
-    · exact hip
-    · intro h; exact absurd h hv
-    · intro h; exact absurd h hv
-    · omega
-    · intro h; exact absurd h hv
-    · intro l hl; simp at hl
-    · omega
-    · exact hsd
+  constructor <;> dsimp only
+  · exact hsig
+  · omega
+  · simp only [List.length_cons]; omega
+  · intro g hg; simp only [List.head?_cons, Option.some.injEq] at hg; rw [← hg]; exact hg0
+  · intro g hg; simp only [List.tail_cons] at hg; have := hgs g hg; rw [zp_deltaGain] at this; omega
+  · rw [hgeo.1]; exact hnl.1
+  · intro j hj
+    rw [hgeo.2.2.1]
+    have : n0 * (nlsfCB rate).order / 2 = n0 * ((nlsfCB rate).order / 2) := by
+      rcases hgeo.2.1 with h | h <;> rw [h] <;> omega
+    rw [this]
+    have := Nat.mul_le_mul_right ((nlsfCB rate).order / 2) (Nat.le_of_lt_succ hnl.1)
+    omega
+  · exact hnl.2.1
+  · exact hnl.2.2
+  · exact hip
+  · exact hv.1
+  · exact hv.2.1
+  · exact hv.2.2.1
+  · exact hv.2.2.2.1
+  · exact hv.2.2.2.2.1
+  · exact hv.2.2.2.2.2
+  · exact hsd
 
 end Opus.SilkSymsProofs
